@@ -3,7 +3,7 @@
 // run: ./check C19 --replay replays/C19/tensor.c19_oob_d1.rs
 /// Test generated for harness `tensor::c19_oob_d1` 
 ///
-/// Check for `assertion`: "assertion failed: idx[i] < self.dims[i]"
+/// Check for `assertion`: "VERIF-REACHED: out-of-range index accepted"
 
 #[test]
 fn kani_concrete_playback_c19_oob_d1_6815597347478502109() {
